@@ -6,6 +6,7 @@ from common import hexs
 PROP = "C12"
 HARNESS = "ptr"
 COMPONENT = "ptr"
+TIE = ["TranslatedPtr"]      # Lemmas/TranslatedPtr.lean: Model/Pointer.lean isValidIndex = is_valid_index as translated by tools/extract/c2lean.py
 VARIANT = "asan"
 SLICE = 150
 RULE = ("trees with adversarial member names ('/', '~', '~0', '~1', '~01', '~10', digit strings, '-', empty, names equal to "
